@@ -23,7 +23,8 @@ use std::collections::BTreeMap;
 pub struct C11;
 
 enum Case {
-    Source(Module, Vec<String>),
+    /// (module, globals to observe, may be executed: well-scoped and inside the defined semantics)
+    Source(Module, Vec<String>, bool),
     Value(MV),
 }
 
@@ -35,12 +36,16 @@ fn decode(bytes: &[u8]) -> Case {
             cfg.wide_globals = true;
             let p = gen_program(&mut c, &cfg);
             let g = p.globals.clone();
-            Case::Source(lower(&p), g)
+            // only programs the reference interpreter accepts are executed (no self-referencing
+            // tables etc.); the others are still serialized and compared
+            let runnable = !matches!(crate::refsem::run_reference(&p, 40_000).outcome, Err(crate::refsem::ErrKind::Undefined(_)));
+            Case::Source(lower(&p), g, runnable)
         }
         1 => {
             let mut g = CardGen::new();
             g.max_depth = 3;
-            Case::Source(g.module(&mut c, 1), vec![])
+            // arbitrary card trees are not well-scoped: compiled and serialized, never executed
+            Case::Source(g.module(&mut c, 1), vec![], false)
         }
         _ => {
             let big = c.chance(40);
@@ -180,7 +185,7 @@ impl Property for C11 {
     }
     fn describe(&self, bytes: &[u8]) -> J {
         match decode(bytes) {
-            Case::Source(m, _) => json!({"module": serde_json::to_value(&m).unwrap_or(J::Null)}),
+            Case::Source(m, _, _) => json!({"module": serde_json::to_value(&m).unwrap_or(J::Null)}),
             Case::Value(v) => json!({"value": v.to_json()}),
         }
     }
@@ -193,7 +198,7 @@ impl Property for C11 {
             execs: 1,
         };
         match decode(bytes) {
-            Case::Source(m, globals) => {
+            Case::Source(m, globals, runnable) => {
                 let mut labels = vec!["source".to_string()];
                 let mut execs = 1;
                 let original = compile(m.clone(), None);
@@ -246,7 +251,10 @@ impl Property for C11 {
                 };
                 let v0 = view(&prog);
                 let cfg = RunCfg { max_instr: 200_000, ..RunCfg::default() };
-                let obs0 = run_vm(&prog, &globals, &cfg);
+                let obs0 = if runnable { Some(run_vm(&prog, &globals, &cfg)) } else { None };
+                if runnable {
+                    labels.push("executed".into());
+                }
                 for (fmt, enc, dec) in prog_codecs() {
                     let bytes = match enc(&prog) {
                         Ok(b) => b,
@@ -265,10 +273,12 @@ impl Property for C11 {
                             return mk("program_roundtrip_wellformed", format!("{}: {}: {}", fmt, clause, d), fp);
                         }
                     }
-                    execs += 1;
-                    let obs = run_vm(&back, &globals, &cfg);
-                    if let Some(d) = obs_diff(&obs0, &obs) {
-                        return mk("program_roundtrip_same_run", format!("{}: {}", fmt, d), fp);
+                    if let Some(obs0) = &obs0 {
+                        execs += 1;
+                        let obs = run_vm(&back, &globals, &cfg);
+                        if let Some(d) = obs_diff(obs0, &obs) {
+                            return mk("program_roundtrip_same_run", format!("{}: {}", fmt, d), fp);
+                        }
                     }
                 }
                 if v0.labels.len() >= 17 {
